@@ -219,6 +219,22 @@ def psi_tables(ctx):
         if il is None:
             continue
         n += 1
+        # the record is returned as parsed: directly, or through a helper every return of which hands its argument back unchanged
+        top = f.nodes[f.strip(f.nodes[r]["val"])]
+        wrapped_ok, wrapper = True, None
+        cur = top
+        while cur["k"] in ("construct", "cast") and len(cur.get("args", cur.get("kids", []))) == 1:
+            cur = f.nodes[f.strip((cur.get("args") or cur.get("kids"))[0])]
+        if cur["k"] == "call" and cur.get("cusr"):
+            hs = [P.fns[u] for u in P.resolve(cur["cusr"]) if u in P.fns and P.fns[u].file.startswith("oomd/")]
+            if hs and len({(h_.pq, h_.line) for h_ in hs}) == 1 and len(hs[0].params) == 1:
+                wrapper = hs[0]
+                hv = [Expander(P, wrapper)(wrapper.nodes[r_]["val"]) for r_ in returns(wrapper) if "val" in wrapper.nodes[r_]]
+                wrapped_ok = bool(hv) and all(re.match(r"^(Oomd::SystemMaybe\()?param:%s\)?$" % re.escape(wrapper.params[0]["name"]), t_) for t_ in hv)
+        ctx.check(wrapped_ok, "psi:record-returned-as-parsed@%d" % f.nodes[r].get("line", 0), "provenance (helpers followed)", f.loc(r),
+                  "a record that parsed is the statistic (no value-based rejection or rewriting on the way out)",
+                  "the parsed pressure record goes through %s, which does not always hand it back (some return of it is an error or another value): a valid "
+                  "reading - e.g. an average of exactly 100.00 - makes the statistic unavailable, and plugins fall back to 0 for that cgroup" % (wrapper.pq if wrapper else "?"))
         els = [f.text(k) for k in il["kids"]]
         if fmt == ["UPSTREAM"]:
             ok, why = True, []
@@ -462,6 +478,11 @@ def run(ctx):
     orf = ctx.fn1("Oomd::OomdContext::refresh")
     bad = erase_in_iteration(P, orf, cg)
     ctx.check(not bad, "context-refresh:erase-safe", "erase_in_iteration", orf.loc(), "invalid contexts are erased without using an invalidated iterator", bad[0][1] if bad else "")
+    from ..misc import double_advance
+    da = double_advance(P, cg, orf)
+    ctx.check(not da, "context-refresh:every-context-visited", "at_most_once (iterator advance per iteration)", orf.loc(da[0][0]) if da else orf.loc(),
+              "every cached context is visited: the iterator advances once per iteration (erase() already yields the next element)",
+              (da[0][1] if da else "") + " - the cached cgroup after a removed one is not refreshed on that tick and keeps serving last tick's values and identity")
     er = orf.calls("erase")
     rfc = orf.calls("CgroupContext::refresh")
     fo = Flow(P, orf, cg=cg)
